@@ -143,6 +143,16 @@ C10 == /\ NoErrors
        /\ \A k \in 1..(Len(hist) - 1) : hist[k] = <<>> => hist[k+1] = <<>>
        \* never more than the visible data is taken from the source
        /\ (c.lim >= 0 => spos <= c.lim)
+\* ---- link to the integer abstraction ReaderInt (proved for ALL sizes by Apalache): its shape invariant, read on the concrete registers
+\* (k = reads since the last rewind, position = position in the stream being read: the source, or the recording while replaying)
+SrcPos == IF frozen THEN rpos ELSE spos
+AbsShape == LET kk == Len(hist) IN
+            /\ (c.h = c.b => SrcPos = Min2(Visible, kk * c.b))
+            /\ (c.h < c.b /\ ph = "init" => kk = 0 /\ SrcPos = 0)
+            /\ (c.h < c.b /\ ph = "dead" /\ FixD3 => kk >= 1 /\ Visible = 0 /\ SrcPos = 0)
+            /\ (c.h < c.b /\ ph = "run" => /\ kk >= 1 /\ Visible >= 1
+                                          /\ \/ (SrcPos = c.b + (kk - 1) * c.h /\ SrcPos <= Visible /\ Len(ocache) = c.b - c.h)
+                                             \/ (SrcPos = Visible /\ c.b + (kk - 1) * c.h >= Visible))
 \* ---- C19: recorder
 C19 == /\ (frozen => /\ data = Ids(0, Len(data))                 \* each consumed sample once, in order
                      /\ Len(data) = spos                          \* exactly what was consumed from the source
